@@ -121,6 +121,11 @@ def gen_plan(seed, tier):
     # for the IO loop that is the end of the connection
     cfg["exc_after"] = Rng(mix(seed, "exc")).pick([None, None, None, None,
                                                    0, 1, 3])
+    cfg["connecting"] = Rng(mix(seed, "conn")).pick([None, None, None, "ok",
+                                                     "fail"])
+    # ... or the peer resets the connection while a backlog waits
+    cfg["rst_after"] = Rng(mix(seed, "rstb")).pick([None, None, None, 0, 1,
+                                                    3])
     for i in range(r.randint(2, 12)):
       steps.append({"n": r.pick([1, 8, 40, 200, 1500, 8192, 9000]),
                     "fast": r.chance(0.4),
@@ -199,7 +204,34 @@ def _drive_sw(sim, plan, known, hit):
     closes.append(sim.now)
     at_close.append((a.send_calls, len(a.accepted)))
   worker.close_handler = on_close
+  conn = cfg.get("connecting")
+  connects = []
+  if conn:
+    # the worker is an outgoing connection still being set up (what
+    # PersistentIOWorker does): the first readiness report decides whether
+    # the connect worked, and the owner may have queued data already
+    worker._connecting = True
+    worker.connect_handler = lambda w: connects.append(sim.now)
+    sim.probes["worker_connecting_" + conn] += 1
+    if conn == "fail":
+      first = _payload(99, 40)
+      worker.send(first)
+      a.inject_reset()        # the connect failed: error pending on the fd
+      sim.settle()
+      sim.advance(6.0)
+      if a.send_calls:
+        raise Violation("sw/write-after-failed-connect", "the connect "
+                        "failed, yet send() was called %d time(s) on the "
+                        "socket" % a.send_calls)
+      if len(closes) != 1 or not worker.closed or connects:
+        raise Violation("sw/close-count", "failed connect: close handler ran "
+                        "%d time(s), connect handler %d time(s), closed=%r"
+                        % (len(closes), len(connects), worker.closed))
+      return 1
   sim.settle()
+  if conn and len(connects) != 1:
+    raise Violation("sw/connect-not-reported", "connect handler ran %d "
+                    "time(s) for a connection that came up" % len(connects))
   a.tx_script = [tuple(x) for x in cfg.get("script", [])]
   has_fatal = any(x[0] == "fatal" for x in a.tx_script)
   queued = b""
@@ -234,7 +266,9 @@ def _drive_sw(sim, plan, known, hit):
     if worker.closed:
       break
     exc_now = cfg.get("exc_after") == i and not has_fatal
-    if exc_now:
+    rst_now = (cfg.get("rst_after") == i and not has_fatal
+               and cfg.get("exc_after") is None)
+    if exc_now or rst_now:
       a.tx_script = []
       a.tx_credit = 0         # the peer's window is closed: a backlog forms
     queued += data
@@ -249,15 +283,21 @@ def _drive_sw(sim, plan, known, hit):
                       % ("send_fast" if st.get("fast") else "send", len(data),
                          type(e).__name__, e))
     check("after queueing message %d" % i)
-    if exc_now:
+    if exc_now or rst_now:
       # the loop is now waiting for the socket to become writable again;
-      # it does, and select reports the exceptional condition with it
+      # it does, and select reports the exceptional condition with it (or:
+      # the peer has reset the connection, so the socket is readable -- with
+      # the error -- and writable in the same round)
       sim.settle()
       if worker.send_buf and not worker.closed:
         a.tx_credit = None
-        a.exc_flag = True
+        if exc_now:
+          a.exc_flag = True
+          sim.probes["exceptional_with_backlog"] += 1
+        else:
+          a.inject_reset()
+          sim.probes["reset_with_backlog"] += 1
         exc_hit = True
-        sim.probes["exceptional_with_backlog"] += 1
         sim._poke()
         sim.settle()
         break
